@@ -21,6 +21,9 @@ Round 9: children_assignment_atomic (shared with C05) and refusals_compare_objec
 task id) run under C11; the owner field of the children facade may have any private name.
 Round 10: the publish callback of the children facade may have any private name; _ChildrenList.remove may be the hook of a
 template method in _TaskList.
+Round 11: the owner handed to _attach may come from a local hoisted before the guards (`w = parent.__wbs if parent is not None else None`,
+resolved with the path condition of the call); reorder's `A + B` may be hoisted into a local; under id_precheck_complete the findings about
+WHICH ids the id test compares are left to C05 (_PrecheckProxy: up-front and per-child check are the same function and agree).
 Not decided: a memoised all_children whose invalidation looks complete (UNDECIDED).
 """
 from __future__ import annotations
@@ -132,7 +135,7 @@ def check(ctx):
                "the id test the children setter runs up front (shared rule C05.intersection_test) rejects everything the per-child parent "
                "assignment would reject later - also two different incoming tasks with one id: otherwise the assignment fails after the old "
                "children were released and the kept ones are left outside X.tasks while they report X", floor=5)
-    ctx.guarded(o, lambda o: __import__('rules.c05', fromlist=['intersection']).intersection(ctx, o))
+    ctx.guarded(o, lambda o: __import__('rules.c05', fromlist=['intersection']).intersection(ctx, _PrecheckProxy(o)))
 
     o = ctx.ob('owners_compared_by_identity', 'R2',
                "the same-WBS guards compare owners with `!=` / `==`: WBS must not define __eq__ / __ne__, or a member of another but "
@@ -153,6 +156,26 @@ def check(ctx):
     o = ctx.ob('removal_paths_delegate', 'R8',
                "list removal, remove_all, WBS.remove / remove_all and roots assignment all end in a children assignment on the owning task", floor=4)
     ctx.guarded(o, lambda o: removal_paths(ctx, o))
+
+
+class _PrecheckProxy:
+    """C05.intersection_test run as C11.id_precheck_complete.  For membership the id test matters as the check the children setter runs up
+    front: whatever the per-child parent assignment rejects later must be rejected there.  Both ask the SAME function, so WHICH ids it
+    compares (scope of the receiving tree, filters applied alike to both sides, how members are recognised) cannot make the two disagree:
+    those findings are C05's, here they are recorded as looked-at.  What stays a finding here: duplicates inside the argument missed or
+    counted per mention, a result that does not follow from the comparison."""
+    SCOPE = ('receiving tree', 'receiving tree without its root', 'identity filter by id', 'inexact ids', 'final intersection')
+
+    def __init__(self, o):
+        self._o = o
+
+    def __getattr__(self, name):
+        return getattr(self._o, name)
+
+    def refute(self, func, node, construct, msg):
+        if isinstance(construct, str) and construct in self.SCOPE:
+            return self._o.site(func, node, f"which ids the test compares ({construct}) is decided under C05: up-front and per-child check agree")
+        return self._o.refute(func, node, construct, msg)
 
 
 def writers(ctx, o, eff):
